@@ -86,6 +86,13 @@ class Nullness:
             return False
         if e["k"] == "Cast" and e.get("ck") == "dynamic" and is_ptr_type(e.get("t")):
             return True
+        if e["k"] == "Cond":
+            # `p ? lookup(...) : nullptr` — null when either arm can be null
+            for arm in (e.get("a"), e.get("b")):
+                x = peel(arm)
+                if is_node(x) and ((x["k"] == "Lit" and x.get("lk") == "null") or self.is_source(x, nullable)):
+                    return True
+            return False
         if e["k"] == "Call" and e.get("fid"):
             for t in self.F.call_targets(e):
                 if t in nullable:
